@@ -195,9 +195,21 @@ def r2_autosort_permutation(ctx):
                       "rules")
             # the guard compares the precursor's position with it
             conds = conditions_at(ic)
-            gt = [a for a in conds if a.pol and isinstance(a.node,
-                                                           ast.Compare)
-                  and iv.id in a.text]
+            def behind(a):
+                # the precursor's position is greater than the step's
+                nd = a.node
+                if not (isinstance(nd, ast.Compare) and len(nd.ops) == 1):
+                    return False
+                l, r_ = norm(nd.left), norm(nd.comparators[0])
+                op = type(nd.ops[0])
+                if iv.id not in (l, r_):
+                    return False
+                if a.pol:
+                    return (r_ == iv.id and op in (ast.Gt, ast.GtE)) or \
+                        (l == iv.id and op in (ast.Lt, ast.LtE))
+                return (r_ == iv.id and op in (ast.Lt, ast.LtE)) or \
+                    (l == iv.id and op in (ast.Gt, ast.GtE))
+            gt = [a for a in conds if behind(a)]
             ctx.check(bool(gt), ic, "move only when the precursor is behind",
                       "precursors are moved unconditionally")
     # the outer loop visits every identifier, the inner every precursor
@@ -341,11 +353,11 @@ def r4_apply_enforces(ctx):
                   + " and ".join(seen) + "): a list is accepted although a "
                   "required step is absent or comes later, or rejected "
                   "although it is valid")
-        ctx.check(cn is not None and all(
-            cfg.dominates(tn.id, cn.id) for tn in [
-                cfg.node_of_stmt(a.origin) for a in conditions_at(
-                    r.ast, stop=lp) if a.origin is not None]
-            if tn is not None), call,
+        head = cfg.node_of_stmt(lp)
+        after = cfg.reach([cn.id], avoid={head.id} if head is not None
+                          else ()) if cn is not None else set()
+        ctx.check(cn is not None and head is not None and r.id not in after,
+                  call,
             "requirement test precedes the step",
             "the step runs before its requirements are checked")
 
@@ -382,6 +394,15 @@ def r5_check_order(ctx):
                   f"precursor > position of the step' ({txt})")
         ctx.check("ValueError" in norm(r), r, "raises ValueError",
                   "wrong exception type")
+        # the two tests are independent of each other
+        other = {"required": "steps_optional",
+                 "optional": "steps_required"}.get(kind)
+        dep = [a for a in conds if other and other in R.text(a.node)]
+        ctx.check(not dep, r, f"{kind} test independent of {other}",
+                  f"check_order tests the {kind} precursors only when "
+                  f"{' and '.join(repr(a) for a in dep)}: a step that has "
+                  f"both kinds of precursors is no longer checked for its "
+                  f"{kind} ones")
     ctx.check(kinds == {"required", "optional"}, fn,
               "required and optional order both checked",
               f"check_order checks only {sorted(str(k) for k in kinds)}")
